@@ -159,3 +159,64 @@ func init() {
 		return tup(bytesVal("(mkB (not (bech32_ok "+s+")) (ite (bech32_ok "+s+") (bech32_dec "+s+") \"\"))"), Val{S: "Int", T: e, Typ: types.Universe.Lookup("error").Type()})
 	})
 }
+
+// ---- sdk.Coins as a set of (denom, amount): coins_amt(coins, denom) is the amount of denom (0 if absent)
+func init() {
+	amtFn := func(fc *FnCtx, coinsSort string) {
+		fc.B.DeclFun("coins_amt", []string{coinsSort, "String"}, "Int")
+	}
+	reg("("+sdkTypes+".Coins).AmountOf", func(p *preCall) Val {
+		fc := p.fc()
+		amtFn(fc, p.args[0].S)
+		t := "(coins_amt " + p.args[0].T + " " + p.str(1) + ")"
+		fc.B.Assert(implies(p.reach, "(>= "+t+" 0)"))
+		fc.trusted["sdk.Coins modelled as a finite map denom -> amount (coins_amt); AmountOf/SafeSub/IsZero by their documented meaning"] = true
+		return Val{S: "Int", T: t, Typ: p.typ(0)}
+	})
+	reg("("+sdkTypes+".Coins).IsZero", func(p *preCall) Val {
+		fc := p.fc()
+		amtFn(fc, p.args[0].S)
+		// named by a Boolean constant: quantifiers are never embedded in terms/definitions (cvc5 1.0 answered
+		// "unsat" on a satisfiable script that had this quantifier inside an ite condition of a definition)
+		b := fc.B.Fresh("coins_iszero", "Bool")
+		fc.B.Assert("(= " + b + " (forall ((cd!d String)) (! (= (coins_amt " + p.args[0].T + " cd!d) 0) :pattern ((coins_amt " + p.args[0].T + " cd!d)))))")
+		return boolVal(b)
+	})
+	reg("("+sdkTypes+".Coins).SafeSub", func(p *preCall) Val {
+		fc := p.fc()
+		amtFn(fc, p.args[0].S)
+		va := p.args[1]
+		tupT, _ := p.resT.(*types.Tuple)
+		if va.VA == nil || len(va.VA.vals) != 1 || tupT == nil {
+			fc.unsupported("sdk.Coins.SafeSub with other than one coin")
+			return p.fr.freshResult(p.resT, "safesub")
+		}
+		d, a, ok := fc.coinParts(va.VA.vals[0])
+		if !ok {
+			fc.unsupported("sdk.Coins.SafeSub: coin parts")
+			return p.fr.freshResult(p.resT, "safesub")
+		}
+		res := fc.freshVal(tupT.At(0).Type(), "safesub")
+		c := p.args[0].T
+		fc.B.Assert(implies(p.reach, "(forall ((cd!d String)) (! (= (coins_amt "+res.T+" cd!d) (- (coins_amt "+c+" cd!d) (ite (= cd!d "+d+") "+a+" 0))) :pattern ((coins_amt "+res.T+" cd!d))))"))
+		neg := "(< (coins_amt " + c + " " + d + ") " + a + ")"
+		fc.B.Assert(implies(p.reach, "(>= (coins_amt "+c+" "+d+") 0)"))
+		return tup(res, boolVal(neg))
+	})
+	// slices.Delete(s, i, j): the elements before i followed by the elements from j on
+	reg("slices.Delete", func(p *preCall) Val {
+		fc := p.fc()
+		s, i, j := p.args[0], p.args[1].T, p.args[2].T
+		if !strings.HasPrefix(s.S, "(Slice ") {
+			fc.unsupported("slices.Delete on %s", s.S)
+			return p.fr.freshResult(p.resT, "sldel")
+		}
+		if p.cc != nil {
+			fc.safety(p.reach, or("(< "+i+" 0)", "(> "+i+" "+j+")", "(> "+j+" (s_len "+s.T+"))"), "slice-bounds", p.cc)
+		}
+		res := fc.freshVal(s.Typ, "sldel")
+		fc.B.Assert(implies(p.reach, and(eq("(s_len "+res.T+")", "(- (s_len "+s.T+") (- "+j+" "+i+"))"), eq("(s_nil "+res.T+")", "(s_nil "+s.T+")"),
+			"(forall ((k Int)) (! (= (select (s_arr "+res.T+") k) (ite (< k "+i+") (select (s_arr "+s.T+") k) (select (s_arr "+s.T+") (+ k (- "+j+" "+i+"))))) :pattern ((select (s_arr "+res.T+") k))))")))
+		return res
+	})
+}
